@@ -605,6 +605,9 @@ def main():
             g = rng.choice([2, 3, 4, 6, 9])
             ea = rand_edges(rng, rng.randint(0, 5), g)
             eb = rand_edges(rng, rng.randint(0, 5), g)
+            if ea and rng.random() < 0.3:                # the same segment in both groups
+                e = rng.choice(ea)
+                eb.insert(rng.randrange(len(eb) + 1), e if rng.random() < 0.5 else (e[1], e[0]))
         out = impl_sweep(ea, eb)
         m = {'k': 'sweep', 'ea': ea, 'eb': eb, 'out': out}
         add(f'KSweep {listlit([seglit(e) for e in ea])} {listlit([seglit(e) for e in eb])} {rlit(out)}', m)
@@ -729,6 +732,22 @@ def main():
         if oi == ('Ok', True) or oc == ('Ok', True):
             nontrivial.add(json.dumps([a, b], sort_keys=True))
 
+    # ---------------------------------------------------------------- malformed shapes (fixed corpus)
+    # a path with one vertex / an outline with one point has no edge: `edges[0][0]` raises
+    # IndexError on some paths.  Outside the property ("valid shapes"); only the model's Err
+    # answers are tied to the code here.
+    SQ_ = shapes['SQ']
+    one, far1 = L([1, 1]), L([9, 9])
+    malformed = [(one, SQ_), (SQ_, one), (far1, SQ_), (SQ_, far1), (one, L([1, 1], [2, 2])), (L([1, 1], [2, 2]), one),
+                 (far1, L([1, 1], [2, 2])), (L([1, 1], [2, 2]), far1), (P([[1, 1]]), SQ_), (SQ_, P([[1, 1]])),
+                 (P([[1, 1], [2, 2]]), SQ_), (SQ_, P([[1, 1], [2, 2]])), (one, PT(1, 1)), (PT(1, 1), one), (one, one),
+                 (shapes['BOX'], one), (one, shapes['BOX']), (P([[9, 9]]), far1)]
+    for a, b in malformed:
+        lit, oi, oc = pair_case(a, b, None, None)
+        add(lit, {'k': 'pair', 'a': a, 'b': b, 'names': ['malformed', 'malformed'], 'da': None, 'db': None,
+                  'int': oi, 'con': oc})
+        ck.count('pair-malformed:' + oi[0] + '/' + oc[0])
+
     # ---------------------------------------------------------------- edges / is_sub_list
     for n in names:
         s = shapes[n]
@@ -818,6 +837,24 @@ def main():
                     unexplained.append({'names': [na, nb], 'a': a, 'b': b, 'what': what,
                                         'implementation': got, 'closed_set_reference': want})
     ck.cov['closed_set_reference_on_fixed_library'] = ref_stats
+
+    # ---------------------------------------------------------------- known findings: deterministic replays
+    for f in ck.findings:
+        if f.get('status') != 'open' or 'replay' not in f:
+            continue
+        a, b = f['replay']['a'], f['replay']['b']
+        oi, oc = observe(a, b)
+        sig = f.get('signature')
+        if sig in ('point_on_ring_edge', 'point_on_segment_interior'):
+            if oi == ('Ok', False) and ref_intersects(a, b) and PREDICATES[sig]({'a': a, 'b': b}):
+                ck.known(f)
+        elif sig == 'polygon_around_hole':
+            if oc == ('Ok', True) and not ref_contains(a, b) and PREDICATES[sig]({'a': a, 'b': b}):
+                ck.known(f)
+        elif sig == 'collinear_paths_end_to_end_order':
+            b_rev = dict(b, vs=b['vs'][::-1])
+            if oi[0] == 'Ok' and observe(a, b_rev)[0] != oi:
+                ck.known(f)
     for u in unexplained[:3]:
         ck.violation({'kind': 'implementation-vs-closed-set-reference (fixed library)', 'case': u,
                       'note': 'not covered by a theorem (DESIGN C02 "Not proved"); the fixed library was triaged on '
